@@ -321,3 +321,12 @@ package knx
 //@   requires gr.Router != nil && gr.Router.sock != nil && gr.Router.retainer != nil && !held(gr.Router.sendMu) && gr.Router.config.RetainCount >= 1 && gr.Router.config.RetainCount <= 1<<30 && uint(gobj("llen", gr.Router.retainer)) <= gr.Router.config.RetainCount && gr.Router.postSendPause <= 1<<40
 //@   ensures [indication] nsend(gr.Router.sock) == old(nsend(gr.Router.sock)) + 1 && typeis(lastsend(gr.Router.sock), *knxnet.RoutingInd) && typeis(lastsend(gr.Router.sock).(*knxnet.RoutingInd).Payload, *cemi.LDataInd)
 //@   ensures [frame] lastsend(gr.Router.sock).(*knxnet.RoutingInd).Payload.(*cemi.LDataInd).Destination == uint16(event.Destination) && lastsend(gr.Router.sock).(*knxnet.RoutingInd).Payload.(*cemi.LDataInd).Control2.IsGroupAddr() && typeis(lastsend(gr.Router.sock).(*knxnet.RoutingInd).Payload.(*cemi.LDataInd).Data, *cemi.AppData) && lastsend(gr.Router.sock).(*knxnet.RoutingInd).Payload.(*cemi.LDataInd).Data.(*cemi.AppData).Command == cemi.APCI(event.Command) && lastsend(gr.Router.sock).(*knxnet.RoutingInd).Payload.(*cemi.LDataInd).Data.(*cemi.AppData).Data == event.Data
+
+// ---------- C16: advertised endpoint ----------
+
+//@ func (conn *Tunnel) hostInfo() (info knxnet.HostInfo, err error)
+//@   props C16
+//@   requires conn.sock != nil
+//@   ensures [nat] !(conn.config.SendLocalAddress && !conn.config.UseTCP) && err == nil ==> info.Address[0] == 0 && info.Address[1] == 0 && info.Address[2] == 0 && info.Address[3] == 0 && info.Port == 0 && (info.Protocol == knxnet.UDP4 || info.Protocol == knxnet.TCP4)
+//@   ensures [local] conn.config.SendLocalAddress && !conn.config.UseTCP && err == nil ==> info.Protocol == knxnet.UDP4 || info.Protocol == knxnet.TCP4
+//@   assigns nothing
